@@ -443,9 +443,10 @@ def _param_names():
 
 
 class Program:
-    def __init__(self, factdir, canonical=True):
+    def __init__(self, factdir, canonical=True, desugar=False):
         self.factdir = factdir
         self.canonical = canonical
+        self.desugared = {}
         self.crates = {}
         self.fns = {}          # path -> Function (lib + bins)
         self.adts = {}
@@ -475,6 +476,9 @@ class Program:
             # functions that are not in the reference inventory (helpers extracted later) are spliced into their callers
             from . import inline
             self.inlined = inline.run(fn_jsons)
+            if desugar:
+                from . import desugar as _desugar
+                self.desugared = _desugar.run(fn_jsons)
         for j, crate in records:
                 if True:
                     k = j["kind"]
